@@ -216,9 +216,11 @@ pub fn subscribe(
 }
 
 pub fn on_update(h: &Handle, node: NodeId, sh: &Rc<Shared>) {
-    fn mk<T: ToVal>(node: NodeId, sh: &Rc<Shared>) -> impl FnMut(incremental::NodeUpdate<&T>) + 'static {
+    /// `nest`: on its second call the handler registers one more handler on its own node
+    fn mk<T: ToVal>(node: NodeId, sh: &Rc<Shared>, nest: Option<incremental::WeakIncr<T>>) -> impl FnMut(incremental::NodeUpdate<&T>) + 'static {
         let sh = sh.clone();
         let tok = sh.token();
+        let mut calls = 0u32;
         move |u: incremental::NodeUpdate<&T>| {
             let _ = &tok;
             sh.tick("handler");
@@ -229,11 +231,17 @@ pub fn on_update(h: &Handle, node: NodeId, sh: &Rc<Shared>) {
                 incremental::NodeUpdate::Unnecessary => (3, None),
             };
             sh.log(Event::NodeUpdate { node, kind, value });
+            calls += 1;
+            if calls == 2 {
+                if let Some(me) = nest.as_ref().and_then(|w| w.upgrade()) {
+                    me.on_update(mk::<T>(node, &sh, None));
+                }
+            }
         }
     }
     match h {
-        Handle::I(x) => x.on_update(mk::<i64>(node, sh)),
-        Handle::P(x) => x.on_update(mk::<(i64, i64)>(node, sh)),
+        Handle::I(x) => x.on_update(mk::<i64>(node, sh, Some(x.weak()))),
+        Handle::P(x) => x.on_update(mk::<(i64, i64)>(node, sh, Some(x.weak()))),
     }
 }
 
